@@ -43,9 +43,22 @@ pub fn generate(rng: &mut Rng, tier: Tier) -> Value {
     } else {
         let n = rng.range(1, if tier == Tier::Quick { 3 } else { 5 }) as usize;
         let weak = rng.chance(1, 4);
-        let (src, names) = kernels::compose(rng, if weak { "spw" } else { "sp" }, n);
+        let (mut ks, mut names) = kernels::compose(rng, "sp", n);
+        if weak {
+            let k = kernels::KERNELS.iter().find(|k| k.name == "weak-dropped").expect("kernel");
+            for _ in 0..rng.range(1, 2) {
+                ks.push(kernels::instantiate(k, rng));
+                names.push(k.name);
+            }
+        }
         // split across evaluations sometimes: same drain points in every configuration
-        let parts: Vec<String> = if rng.chance(1, 3) { src.split_inclusive("})();\n").map(str::to_string).collect() } else { vec![src] };
+        let mut parts: Vec<String> = if weak || rng.chance(1, 3) { ks } else { vec![ks.concat()] };
+        if weak {
+            // observe in later host entries, after the kept-alive list of earlier jobs was cleared
+            let obs = kernels::KERNELS.iter().find(|k| k.name == "weak-observe").expect("kernel");
+            parts.push(kernels::instantiate(obs, rng));
+            parts.push(kernels::instantiate(obs, rng));
+        }
         (format!("kernels:{}", names.join("+")), parts, weak)
     };
     let sched = match rng.below(10) {
@@ -142,6 +155,8 @@ fn run_once(sc: &Scenario, collect: bool) -> Outcome {
                 out.log.push(format!("#{i} jobs:{}", js::error_string(e, &mut ctx)));
             }
             out.log.extend(host.trace.take());
+            // the host's part of ClearKeptObjects: synchronous execution has completed
+            ctx.clear_kept_objects();
         }
         boundary(&mut out);
         // give FinalizationRegistry cleanup jobs a chance in both configurations
@@ -186,6 +201,16 @@ fn run_once(sc: &Scenario, collect: bool) -> Outcome {
 fn check_weak(obs: &[String], rep: &mut RunReport, which: &str) {
     let mut seen = std::collections::BTreeSet::new();
     for o in obs {
+        if o == "stable-within-job false" {
+            rep.violate("weak-unstable-within-job", format!("{which}: two deref() calls in one job disagreed"));
+        }
+        if o.starts_with("alive-later ") {
+            let mut it = o.split(' ').skip(1);
+            let (a, n) = (it.next().unwrap_or("0"), it.next().unwrap_or("0"));
+            if a != n {
+                rep.probe("weakref_observed_collected", 1);
+            }
+        }
         if o == "kept-deref false" {
             rep.violate("weak-kept-collected", format!("{which}: WeakRef.deref() of a reachable object returned undefined"));
         }
@@ -222,9 +247,6 @@ pub fn execute(v: &Value) -> RunReport {
         check_weak(&t.weak, &mut rep, "scheduled");
         if r.weak.iter().any(|o| o.starts_with("finalized ")) {
             rep.violate("weak-finalized-without-collection", "a finalization callback ran although no collection happened".to_string());
-        }
-        if t.weak.iter().any(|o| o.starts_with("alive-later") && !o.ends_with(&format!(" {}", t.weak.iter().find(|x| x.starts_with("alive-now")).map_or("", |x| x.rsplit(' ').next().unwrap_or(""))))) {
-            rep.probe("weakref_observed_collected", 1);
         }
     }
     for (o, which) in [(&r, "never-collect"), (&t, "scheduled")] {
@@ -298,12 +320,12 @@ pub fn shrink(v: &Value) -> Vec<Value> {
 pub const PROP: Prop = Prop {
     id: "C10",
     level: "fault_enumeration",
-    runs_quick: 6_000,
-    runs_thorough: 300_000,
+    runs_quick: 24_000,
+    runs_thorough: 600_000,
     generate,
     execute,
     shrink,
-    rule: "one run = one program (1..3 kernels out of 34 feature kernels, possibly split across evaluations, or one of 859 harvested test groups = several evaluations sharing a context) x evaluation mode (sync / budget 1..256 with collections at yields) x collection schedule (every k-th allocation for k in {1,2,3,7,64} — k=1 enumerates every allocation point of the program —, seeded Bernoulli at 0.2..20 %, host-entry and job boundaries), executed under the schedule and under 'never collect'; non-trivial = at least one collection was injected; distinct = distinct (program, schedule, budget, allocation points, collections fired)",
+    rule: "one run = one program (1..3 kernels out of 34 feature kernels, possibly split across evaluations, or one of 858 harvested test groups = several evaluations sharing a context) x evaluation mode (sync / budget 1..256 with collections at yields) x collection schedule (every k-th allocation for k in {1,2,3,7,64} — k=1 enumerates every allocation point of the program —, seeded Bernoulli at 0.2..20 %, host-entry and job boundaries), executed under the schedule and under 'never collect'; non-trivial = at least one collection was injected; distinct = distinct (program, schedule, budget, allocation points, collections fired)",
     real: &["lexer/parser/compiler/VM/builtins", "boa_gc collector and allocator", "SimpleJobExecutor", "WeakRef/FinalizationRegistry machinery"],
     stub: &["collection trigger decision (hook H1)", "SimClock", "SimHooks", "print/weakobs natives"],
     assumptions: &[
